@@ -9,7 +9,7 @@ CHECKS = {
    level="model_checking",
    text="Every operation sequence over {ChainBuffer k bytes, ChainWrite k-byte slice, Flush} up to the stated length, with every sink failure budget, is executed symbolically on the real Writer/net.Buffers code with all byte contents symbolic; the delivered bytes are asserted equal to the concatenation model after every flush. Exhaustive over histories within the bound, for all byte values.",
    ref="DESIGN.md §4 C14",
-   note="bounds: ops<=3 (quick) / 4 (thorough), 0..3 bytes per op, sink budget -1..4; both append growth policies (double / exact); WriteBlock+Flush == EncodeBlock and WriteColumn == EncodeColumn for all C01 shapes; engine fidelity checked by native witness replays; append growth policy fixed (double); preemption not modelled (Writer is single-owner)"),
+   note="bounds: ops<=3 (quick) / 4 (thorough), 0..3 bytes per op, sink budget -1..4; both append growth policies (double / exact); WriteBlock+Flush == EncodeBlock and WriteColumn == EncodeColumn for all C01 shapes, and for String/Bytes/Array(String)/Nullable(String)/LowCardinality(String) columns holding a value of 127,128,255,256,1023,1024,1025,4095,4096,16383 or 16384 bytes (first/middle/last byte symbolic) before, after or next to short values; engine fidelity checked by native witness replays; append growth policy fixed (double); preemption not modelled (Writer is single-owner)"),
  "C17": dict(
    level="model_checking",
    text="Each message's real EncodeAware/DecodeAware pair is executed symbolically with the protocol revision as ONE symbolic int (so every revision, hence both sides of every threshold, is covered by the version-comparison forks) and all field values symbolic; per path the solver decides (a) encoded bytes == bytes of an independent reference encoder with its own threshold table, (b) decode(encode(x)) == x with the fields absent at that revision zero, (c) the reader is exactly exhausted.",
@@ -54,12 +54,12 @@ CHECKS = {
    level="model_checking",
    text="Results.DecodeResult / Block.DecodeRawBlock are executed on blocks written by the harness' reference writer: 1..2 columns drawn from 13 server type strings (incl. parameter-only and spacing variants), symbolic names and cells, 0..1 rows, against 0..2 targets drawn from 14 column kinds with blank or symbolic names, at a symbolic revision. On a nil error the solver decides: counts equal (or the documented no-target/no-rows case), names equal after blank filling, every (server,target) pair is in the harness' explicit compatible-or-open set, each target holds exactly its own column's cells (re-encoded bytes == wire bytes), inferable targets adopted precision / enum definition. On an error: a block whose pairs are all must-bind is only rejected for a name mismatch, and every target is empty or holds its own column's cells. A second harness checks blank-name filling and enforcement across two blocks.",
    ref="DESIGN.md §4 C18",
-   note="bounds: <=2 columns (quick: all 13x14 pairs for one column, 4x4 kinds for two columns), names 1 byte, rows<=1; type strings outside the table and DateTime('zone') (tzdata) are outside"),
+   note="bounds: <=2 columns (quick: all 13x14 pairs for one column, 4x4 kinds for two columns), names 1 byte, rows<=1; type strings outside the tables and named zones other than UTC (tzdata) are outside; block sequences: two one-column blocks (rows 1, then 0..1) drawn from 18 types incl. same-base pairs (Array(UInt8/UInt64/String), Nullable(UInt8/UInt32), DateTime64(3/6), Decimal(9/18), Enum8 with two different value lists, Enum16, DateTime with/without zone) against one auto-inferred target: the second block is rejected or the target equals a fresh target bound to the second type (type string, parameters, cells)"),
  "C05": dict(
    level="model_checking",
    text="compress.Writer.Compress and compress.Reader.Read/readBlock are executed symbolically: (a) 1..2 frames of symbolic payloads, every method, every read size: decompressed bytes == payload and EOF afterwards; (b) a fully symbolic 25-byte header + tail: no allocation request above the documented 128 MiB limits, no panic; (c) every single-byte alteration (offset enumerated over the whole frame, new value symbolic) is rejected, with a *CorruptedDataErr carrying the stored checksum when the length fields are intact, and the Read after the failure hands out nothing; (d) every proper prefix of a frame is rejected.",
    ref="DESIGN.md §4 C05",
-   note="bounds: payload <=3 (quick)/6 bytes, <=2 frames, read sizes 1..3/5; CityHash128 is an uninterpreted function with a per-path no-collision assumption; LZ4/LZ4HC/ZSTD are an opaque codec pair (levels, real bit streams outside); method None is interpreted byte for byte"),
+   note="bounds: payload <=3 (quick)/6 bytes, <=2 frames, read sizes 1..3/5; CityHash128 is an uninterpreted function with a per-path no-collision assumption; LZ4/LZ4HC/ZSTD are an opaque codec pair (levels, real bit streams outside; the LZ4 model honours the library's destination-size contract: below CompressBlockBound an incompressible payload yields (0, nil)); method None is interpreted byte for byte"),
  "C08": dict(
    level="model_checking",
    text="proto.Reader (bufio + io.ReadFull + binary.ReadUvarint) and compress.Reader are executed over a harness transport that returns the SAME symbolic stream in pieces - one byte per Read, two pieces at every offset, and all 2^(n-1) segmentations of the leading bytes - for every block shape of C01 and for two-frame compressed streams; the solver decides that values, row counts and bytes consumed equal the single-segment outcome, and that a cut stream still fails under each segmentation.",
@@ -67,9 +67,9 @@ CHECKS = {
    note="bounds: rows<=1 (quick)/2, all segmentations of the first 5 (quick)/8 bytes, one-byte delivery and every two-piece split for the whole stream; the client-level part of the property (read timeouts between packets retried by Do's receive loop) is covered by the C03/C04 harness family when built, not here"),
  "C02": dict(
    level="model_checking",
-   text="The real Client.Do (sender, receiver and cancel-watch goroutines run as cooperative coroutines over errgroup/context models) is executed against a harness net.Conn with the negotiated revision symbolic (all revisions at once), all Query strings, settings (client and query level, flags), parameters, external data and input cells symbolic, compression disabled or enabled (method None framing, CityHash uninterpreted). The bytes recorded by the connection are asserted equal to the output of an independent reference encoder: one Query packet with the caller's fields in order, [external block] + empty block, then input block + empty block, each a Data packet with table name and exactly one checksummed frame iff compression is on; parameters are refused before 54459 with nothing written.",
+   text="The real Client.Do (sender, receiver and cancel-watch goroutines run as cooperative coroutines over errgroup/context models) is executed against a harness net.Conn with the negotiated revision symbolic (all revisions at once), all Query strings, settings (client and query level, flags), parameters, external data and input cells symbolic, compression disabled or enabled (method None framing, CityHash uninterpreted). The bytes recorded by the connection are asserted equal to the output of an independent reference encoder: one Query packet with the caller's fields in order, [external block] + empty block, then input block + empty block, each a Data packet with table name and exactly one checksummed frame iff compression is on; parameters are refused before 54459 with nothing written. Streamed input (OnInput, <=2 rounds; the C09 harness) is run under this property too: each round's block, as it was when the round began, in order, then one terminator.",
    ref="DESIGN.md §4 C02",
-   note="bounds: strings of tied length 0..1 (quick)/2, <=1 client setting, <=1 query setting, <=1 parameter, external data one UInt64 column, input <=2 columns (UInt64, String) x <=2 rows; LZ4/ZSTD bit streams outside (opaque codec); OpenTelemetry off; scheduling: first-runnable policy (the written bytes do not depend on the schedule in these scenarios); streamed input is C09"),
+   note="bounds: strings of tied length 0..1 (quick)/2, <=1 client setting, <=1 query setting, <=1 parameter, external data one UInt64 column, input <=2 columns (UInt64, String) x <=2 rows; LZ4/ZSTD bit streams outside (opaque codec); OpenTelemetry off; scheduling: first-runnable policy (the written bytes do not depend on the schedule in these scenarios)"),
  "C09": dict(
    level="model_checking",
    text="Client.Do with OnInput is executed for every callback history of up to 2 (quick)/3 (thorough) rounds over {append a row, reset+append, overwrite row 0 in place, reset to nothing} x final result {io.EOF, wrapped io.EOF, other error}, initial rows 0..2, a zero-copy column (ColUInt64) or ColStr, with and without framing; all cells symbolic. The client-to-server bytes are asserted equal to query + terminator + one reference-encoded block per round holding the shadow model's contents when the round began + exactly one terminator; bytes delivered before a callback ran must be a prefix of the final stream (no rewriting through aliased memory); a callback error fails Do and no Data block follows the failing round.",
@@ -82,7 +82,7 @@ CHECKS = {
    note="bounds: <=2/3 packets, one result column (UInt64), 1-row telemetry blocks, integer fields 7 bit, revisions {54460, 54453, 54419, 51902} in quick (one symbolic revision >= 50264 in thorough), compression off, instrumentation off; non-preemptive schedules only"),
  "C13": dict(
    level="model_checking",
-   text="The real Connect/Dial/handshake (two goroutines under the cooperative scheduler) are executed with the client revision AND the server revision as two symbolic integers (every pair), symbolic hello strings, credentials and quota key. Success: negotiated revision == min(client, server), ServerInfo() as sent, client bytes == reference hello + addendum iff min >= 54458 carrying the quota key, then Ping and a Query whose bytes equal the reference encoder at exactly the negotiated revision. Failure (exception, wrong packet, hello cut at every byte, silence): error carrying the exception, no client, the dialed connection closed. Delay: a hello arriving 1s/10s/100s into a 200s handshake timeout is accepted.",
+   text="The real Connect/Dial/handshake (two goroutines under the cooperative scheduler) are executed with the client revision AND the server revision as two symbolic integers (every pair), symbolic hello strings, credentials and quota key. Success: negotiated revision == min(client, server), ServerInfo() as sent, client bytes == reference hello + addendum iff min >= 54458 carrying the quota key, then Ping and a Query whose bytes equal the reference encoder at exactly the negotiated revision. Failure (exception, wrong packet, hello cut at every byte, silence): error carrying the exception, no client, the dialed connection closed. Delay: a hello arriving 1s/10s/100s into a 200s handshake timeout is accepted, through Connect and through Dial with a harness dialer (default DialTimeout).",
    ref="DESIGN.md §4 C13",
    note="bounds: strings 0..1 byte, one query; TLS and real dialing outside; clock is concrete (arrival instants enumerated); known finding: servers older than 54401 with a newer client (hello fields gated on the client's revision) - reported as KNOWN-FINDING by the separate harness VerifC13OldServer"),
  "C04": dict(
@@ -92,9 +92,9 @@ CHECKS = {
    note="bounds: two scenarios, one block each, revision 54460, compression off; switch points are channel operations, close(ch), WaitGroup.Wait and every call on the connection - orderings that need a preemption between two other statements are outside (cooperative coroutines); native replays of schedule-dependent counterexamples are repeated with random delays at the harness' yield points"),
  "C10": dict(
    level="model_checking",
-   text="The caller's context is a harness type whose cancellation flips at the k-th observation (every Err/Done/Deadline call is a gate; k enumerated 0..10/24), for the select and insert scenarios, a responsive or a forever-silent server, and five scheduling policies; plus the same during Connect's hello exchange. When Do fails after the flip: errors.Is(err, context.Canceled), connection closed, client closed, the written bytes are a prefix of the reference stream ending at a flush boundary followed by at most one byte, which must be the Cancel code 3, and no goroutine of the call is left (engine-level leak check); with and without a caller deadline one hour away, the call is back within 3 s of the cancellation on the harness' virtual clock (a blocked read returns at the deadline the client set, so a read deadline taken from the caller's deadline instead of ReadTimeout shows as lateness); a loop that never observes the cancellation is reported as does-not-return.",
+   text="The caller's context is a harness type whose cancellation flips at the k-th observation (every Err/Done/Deadline call is a gate; k enumerated 0..10/24), for the select and insert scenarios, a responsive or a forever-silent server, writes that work or fail from the moment the context is done, and five scheduling policies; plus the same during Connect's hello exchange. When Do fails after the flip: errors.Is(err, context.Canceled), connection closed, client closed, the written bytes are a prefix of the reference stream ending at a flush boundary followed by at most one byte, which must be the Cancel code 3, and no goroutine of the call is left (engine-level leak check); with no caller deadline, a deadline one hour away, and deadlines that themselves expire (error must match context.DeadlineExceeded), the call is back within 3 s of the cancellation on the harness' virtual clock (a blocked read returns at the deadline the client set, so a read deadline taken from the caller's deadline instead of ReadTimeout shows as lateness); a loop that never observes the cancellation is reported as does-not-return.",
    ref="DESIGN.md §4 C10",
-   note="bounds: gates <=10 (quick)/24; promptness is measured on the harness' virtual clock (time.Now is a model; a blocked Read advances it to the read deadline), real wall-clock time and goroutines blocked in a real kernel read are outside; a caller deadline that EXPIRES is modelled as a cancellation gate with context.Canceled only (DeadlineExceeded matching is not separately decided); non-preemptive schedules only"),
+   note="bounds: gates <=10 (quick)/24; promptness is measured on the harness' virtual clock (time.Now is a model; a blocked Read advances it to the read deadline), real wall-clock time and goroutines blocked in a real kernel read are outside; a deadline context expires at its deadline on that clock (2.5 s and 0.4 s against ReadTimeout 1 s) and the error must then match context.DeadlineExceeded; the handshake harness uses cancellation only; non-preemptive schedules only"),
  "C11": dict(
    level="model_checking",
    text="chpool (Acquire, Release, Do/Ping through a handle, checkIdleConnsHealth, Close) is executed together with the REAL github.com/jackc/puddle/v2 pool and x/sync/semaphore, interpreted from their SSA with goroutines as cooperative coroutines, over connections dialed from a scripted server. Histories: acquire/release/release-again/re-acquire/stale release by a previous holder/third acquire with MaxConns 1..2; a client closed while held; lifetime exceeded at release; idle time exceeded at the health check; healthy idle connections; pool Close. Assertions: a released handle is inert (repeated and stale releases change nothing, never panic), a connection has one holder (a third acquire never returns the connection another handle holds), open connections <= MaxConns, closed/expired connections are destroyed and not reissued, everything dialed is closed after Close.",
